@@ -9,7 +9,7 @@ VARIANT = 'plain'
 RULE = ('histories with k in {0,1,maxD-1,maxD,maxD+1,2maxD+3,300,random} distinct Probe/Train observations (maxD = (MTU-34)/20) plus '
         'duplicates, frames for other stations and near-collision sources, interleaved Discover (same / changed / zero generation, either service)/Emit/QueryLargeTlv, followed by Queries '
         'until the more flag clears and one extra Query, then more observations and a Reset; MTU in {576,1500,9216,1492,1472, 576+0..39 (every residue of the descriptor size), random}, direct and bridged '
-        'mapper; non-trivial = a QueryResp listing at least one observation; distinct = distinct projected transcript')
+        'mapper, the Queries arriving by the same or another path than the Discover; non-trivial = a QueryResp listing at least one observation; distinct = distinct projected transcript')
 ASSUMPTIONS = ['port contract as for C02', 'at most 300 distinct observations between Queries (the property\'s domain); beyond that the predicate is silent until a Reset']
 
 
@@ -47,7 +47,8 @@ def cases(rng, tier, X):
                     ops.append('rx 0 ' + rng.choice([F.discover(mapper, rng.choice([1, 1, 2, 0, F.rand_u16(rng)]), rng.randrange(65536), tos=rng.choice([0, 0, 1]), eth_src=eth), F.qltlv(mapper, own, 9, 0x11, 0, eth_src=eth),
                                                      F.emit(mapper, own, 3, [(1, 0, F.rand_mac(rng), F.rand_mac(rng))], eth_src=eth)]))
             for q in range(len(keys) // maxd + 2):
-                ops.append('rx 0 ' + F.query(mapper, own, rng.randrange(1, 65536), eth_src=eth))
+                # the Query may arrive by another path than the frame that established the mapper (directly / through a bridge)
+                ops.append('rx 0 ' + F.query(mapper, own, rng.randrange(1, 65536), eth_src=rng.choice([eth, eth, None, rng.choice(F.STATIONS)])))
             if rng.random() < 0.3:
                 for _ in range(rng.randint(1, 5)):
                     ops.append('rx 0 ' + obs_frame(rng, own))
